@@ -32,7 +32,8 @@ def run(tier, seed):
                        '(initially recovered: [(tmin, R)]), which starts at tmin, is time-ordered and makes legal moves whenever tmin <= t_inf <= t_rec; every simulator hands '
                        'node_history / transmissions to the Simulation_Investigation constructor under the right parameter; for Gillespie_SIR (return_full_data=True) the loop invariant '
                        'links the recorded times to the trajectory: status S <=> no recorded time, I <=> infection time only, R <=> recovery time, tmin <= infection <= recovery <= now, and the histories '
-                       'handed over are built from exactly these. Bounded (labelled): summary / node_status / '
+                       'handed over are built from exactly these; for Gillespie_SIS (return_full_data=True) the per-node lists of infection / recovery times alternate, lie in [tmin, now], agree with the status, '
+                       'and exactly these lists are handed to the history builder. Bounded (labelled): summary / node_status / '
                        'get_statuses / t,S,I,R against brute-force head counts on exhaustive short histories; for every simulator and 3 seeds the summary of the full-data '
                        'object equals the plain arrays.')
     rep.assumptions += ['M: "summary(histories) == arrays" in general is the composition of the handler contracts (one row per recorded change) with the proved transform; only checked natively here',
